@@ -123,17 +123,42 @@ func TestC17_Identities(t *testing.T) {
 		projKinds := []ast.Step{{Kind: ast.SListStar}, {Kind: ast.SFlatten}, {Kind: ast.SFilter, Cond: g.Expr(rep, 2)}, {Kind: ast.SSlice, Start: nil, Stop: nil, Stride: ast.I64(int64(rapid.IntRange(1, 2).Draw(t, "stride")))}, {Kind: ast.SSlice, Start: ast.I64(1)}}
 		switch schema {
 		case 0, 1: // X<proj>.s1.s2 == X<proj>.s1 | [*].s2
-			p := gen.Pick(t, "proj", projKinds)
+			p := gen.Pick(t, "proj", append(projKinds, ast.Step{Kind: ast.SStar}))
 			steps := selectorSteps(g, rep, 3)
-			if len(steps) < 2 {
+			if rapid.IntRange(0, 2).Draw(t, "totalsel") == 0 {
+				// a selector that yields something for every operand, scalars
+				// included: a function of @ or a multi-select
+				cur := ast.A(ast.Cur())
+				steps = append([]ast.Step{gen.Pick(t, "total", []ast.Step{
+					{Kind: ast.SCall, Name: "to_string", Args: []ast.Arg{cur}}, {Kind: ast.SCall, Name: "type", Args: []ast.Arg{cur}},
+					{Kind: ast.SCall, Name: "not_null", Args: []ast.Arg{cur}}, {Kind: ast.SCall, Name: "to_array", Args: []ast.Arg{cur}},
+					{Kind: ast.SCall, Name: "length", Args: []ast.Arg{cur}}, {Kind: ast.SCall, Name: "abs", Args: []ast.Arg{cur}},
+					{Kind: ast.SMultiList, Items: []ast.Expr{ast.Cur()}}, {Kind: ast.SMultiHash, Keys: []string{"k"}, Items: []ast.Expr{ast.Cur()}},
+				})}, steps...)
+			}
+			if len(steps) < 1 {
 				steps = []ast.Step{{Kind: ast.SField, Name: gen.Key(t)}, {Kind: ast.SField, Name: gen.Key(t)}}
 			}
-			k := rapid.IntRange(1, len(steps)-1).Draw(t, "split")
+			// (split 0: every selector moves behind the pipe)
+			k := rapid.IntRange(0, len(steps)-1).Draw(t, "split")
 			lhs = X.With(append([]ast.Step{p}, steps...)...)
 			rhs = pipeStar(X.With(append([]ast.Step{p}, steps[:k]...)...), steps[k:]...)
 			if p.Kind == ast.SSlice && xv.IsValue() && xv.V.K == jv.Str {
 				c.Skip("slice-of-string-is-not-a-projection")
 				return
+			}
+			if k == 0 && steps[0].Kind == ast.SCall {
+				// X<proj>.f(@) applies f to null elements too, X<proj> | [*].f(@)
+				// only to those the first projection kept: the two spellings
+				// are the same only when no element is null (the reference
+				// interpreter decides)
+				ml, _ := model.Eval(lhs, doc)
+				mr, _ := model.Eval(rhs, doc)
+				same := ml.Undet == "" && mr.Undet == "" && ml.IsValue() == mr.IsValue() && (!ml.IsValue() || jv.Equal(ml.V, mr.V))
+				if !same {
+					c.Skip("function-selector-over-null-elements")
+					return
+				}
 			}
 			name = "proj-selectors-vs-pipe"
 		case 2: // X[*].e == map(&e, X) with nulls removed, for an array X
